@@ -20,22 +20,29 @@ open Pharmpy.C06.Generated
 /-- If every hashed field of every object inside `a` is compared by `__eq__` in a way that
     determines what the hash sees (`lawful`), then `a == b` implies that `hash` sees the same
     key on both sides; hence `hash a = hash b` for whatever function `H` the interpreter uses. -/
-theorem eq_implies_hash_eq (T : Table) (H : Val → Nat) (a b : Val)
+theorem eq_implies_hash_eq (T : Table) (H : Val → Nat)
+    (hH : ∀ x y, keyEqv x y = true → H x = H y) (a b : Val)
     (hl : lawful T a = true) (h : eqV T a b = true) :
-    H (hashKey T a) = H (hashKey T b) := by
-  rw [(eq_hash_core T a).1 b hl h]
+    H (hashKey T a) = H (hashKey T b) :=
+  hH _ _ ((eq_hash_core T a).1 b hl h)
+
+/-- The key form: the keys agree structurally, entry sets (`frozenset(items())`) as sets. -/
+theorem eq_implies_hash_key_eqv (T : Table) (a b : Val)
+    (hl : lawful T a = true) (h : eqV T a b = true) :
+    keyEqv (hashKey T a) (hashKey T b) = true :=
+  (eq_hash_core T a).1 b hl h
 
 /-- The same for a field chain compared and hashed field-wise by a class. -/
 theorem eq_implies_hash_eq_fields (T : Table) (fs : List FieldSpec) (vs vs' : Val)
     (hl : lawfulFs T fs vs = true) (h : eqFs T fs vs vs' = true) :
-    hashFs T fs vs = hashFs T fs vs' :=
+    keyEqv (hashFs T fs vs) (hashFs T fs vs') = true :=
   (eq_hash_core T vs).2 fs vs' hl h
 
 /-- A class whose `__eq__` starts with `if hash(self) != hash(other): return False`
     (Parameter, Parameters, Assignment) is consistent whatever its fields are. -/
 theorem hash_guard_consistent (T : Table) (c : String) (sp : ClassSpec) (vs b : Val)
     (hf : T.find c = some sp) (hg : sp.hashGuard = true) (h : eqV T (.obj c vs) b = true) :
-    hashKey T (.obj c vs) = hashKey T b := by
+    keyEqv (hashKey T (.obj c vs)) (hashKey T b) = true := by
   have hl : lawful T (.obj c vs) = true := by simp [lawful, hf, hg]
   exact (eq_hash_core T _).1 b hl h
 
@@ -49,7 +56,7 @@ def specIdentityHash : ClassSpec :=
       { name := "_t", cmp := some .plain, hash := some .plain, kind := .prim } ] }
 
 theorem identity_hash_witness :
-    ∃ a b, eqV [specIdentityHash] a b = true ∧ hashKey [specIdentityHash] a ≠ hashKey [specIdentityHash] b :=
+    ∃ a b, eqV [specIdentityHash] a b = true ∧ keyEqv (hashKey [specIdentityHash] a) (hashKey [specIdentityHash] b) = false :=
   ⟨.obj "CS" (.cons (.ident 1 "g") (.cons (.atom "t") .nil)),
    .obj "CS" (.cons (.ident 2 "g") (.cons (.atom "t") .nil)), by decide, by decide⟩
 
@@ -62,7 +69,7 @@ def specHashedNotCompared : ClassSpec :=
 
 theorem hashed_not_compared_witness :
     ∃ a b, eqV [specHashedNotCompared] a b = true ∧
-      hashKey [specHashedNotCompared] a ≠ hashKey [specHashedNotCompared] b :=
+      keyEqv (hashKey [specHashedNotCompared] a) (hashKey [specHashedNotCompared] b) = false :=
   ⟨.obj "CI" (.cons (.atom "WGT") (.cons (.atom "age") .nil)),
    .obj "CI" (.cons (.atom "WGT") (.cons (.atom "body weight") .nil)), by decide, by decide⟩
 
@@ -73,26 +80,42 @@ def specOrderedItems : ClassSpec :=
       { name := "_mapping", cmp := some .plain, hash := some .orderedItems, kind := .dict } ] }
 
 theorem ordered_items_witness :
-    ∃ a b, eqV [specOrderedItems] a b = true ∧ hashKey [specOrderedItems] a ≠ hashKey [specOrderedItems] b :=
+    ∃ a b, eqV [specOrderedItems] a b = true ∧ keyEqv (hashKey [specOrderedItems] a) (hashKey [specOrderedItems] b) = false :=
   ⟨.obj "FM" (.cons (.dict [("a", "1"), ("b", "2")]) .nil),
    .obj "FM" (.cons (.dict [("b", "2"), ("a", "1")]) .nil), by decide, by decide⟩
+
+/-- The repaired shapes of /repo (3364a47 `hash(frozenset(items()))`, d2e36d7 `frozenset(g.nodes)`) satisfy
+    the law on the same objects: the keys are equivalent. -/
+example :
+    let T : Table := [{ name := "FM", hashGuard := false, fields := [
+      { name := "_mapping", cmp := some .plain, hash := some .itemSet, kind := .dict } ] }]
+    let a := Val.obj "FM" (.cons (.dict [("a", "1"), ("b", "2")]) .nil)
+    let b := Val.obj "FM" (.cons (.dict [("b", "2"), ("a", "1")]) .nil)
+    eqV T a b = true ∧ lawful T a = true ∧ keyEqv (hashKey T a) (hashKey T b) = true := by decide
+
+example :
+    let T : Table := [{ name := "CS", hashGuard := false, fields := [
+      { name := "_g", cmp := some .content, hash := some .contentPart, kind := .ident } ] }]
+    let a := Val.obj "CS" (.cons (.ident 1 "n|e") .nil)
+    let b := Val.obj "CS" (.cons (.ident 2 "n|e") .nil)
+    eqV T a b = true ∧ lawful T a = true ∧ keyEqv (hashKey T a) (hashKey T b) = true := by decide
 
 /-- An inconsistency is inherited by every container that hashes the object: a tuple of such
     systems (`Statements._statements`) is equal but hashes differently. -/
 theorem inherited_by_container_witness :
     ∃ a b, eqV [specIdentityHash] (.tup a) (.tup b) = true ∧
-      hashKey [specIdentityHash] (.tup a) ≠ hashKey [specIdentityHash] (.tup b) :=
+      keyEqv (hashKey [specIdentityHash] (.tup a)) (hashKey [specIdentityHash] (.tup b)) = false :=
   ⟨.cons (.obj "CS" (.cons (.ident 1 "g") (.cons (.atom "t") .nil))) .nil,
    .cons (.obj "CS" (.cons (.ident 2 "g") (.cons (.atom "t") .nil))) .nil, by decide, by decide⟩
 
 /-! ### the table regenerated from /repo -/
 
-/-- Classes of /repo for which the static check is known to fail (F3 and what follows from it):
-    directly — frozenmapping (ordered hash), ColumnInfo (`_descriptor`), CompartmentalSystem (`_g`),
-    Model (`_dataset`, `_initial_individual_estimates`); through a field of such a class — the others. -/
-def knownInconsistent : List String :=
-  ["frozenmapping", "ColumnInfo", "DataInfo", "ExecutionStep", "EstimationStep", "SimulationStep",
-   "ExecutionSteps", "CompartmentalSystem", "Statements", "Model"]
+/-- Classes of /repo for which the static check is still known to fail: `Model` only
+    (`_dataset` is hashed but not compared; `_initial_individual_estimates` is compared by content and
+    hashed as the unhashable frame).  frozenmapping, ColumnInfo, CompartmentalSystem — and with them
+    DataInfo, the execution steps and Statements — were repaired in /repo (3364a47, 6f20d2f, d2e36d7)
+    and are no longer exempt. -/
+def knownInconsistent : List String := ["Model"]
 
 /-- Every class of the regenerated table passes the static eq/hash check, except the named
     known ones.  A new `__hash__` that hashes an uncompared or identity field breaks this theorem. -/
@@ -109,9 +132,10 @@ theorem class_check_sound (T : Table) (n : Nat) (k : Kind) (v : Val)
 /-- Hence for every class the static check accepts, and every well-typed instance `a` of it
     (fields of any nesting depth and length), `a == b → hash a = hash b`. -/
 theorem consistent_class_eq_implies_hash_eq (T : Table) (c : String) (hc : classOK T c = true)
-    (a b : Val) (ha : HasKind T (.cls c) a) (h : eqV T a b = true) (H : Val → Nat) :
+    (a b : Val) (ha : HasKind T (.cls c) a) (h : eqV T a b = true)
+    (H : Val → Nat) (hH : ∀ x y, keyEqv x y = true → H x = H y) :
     H (hashKey T a) = H (hashKey T b) :=
-  eq_implies_hash_eq T H a b (class_check_sound T _ _ a hc ha) h
+  eq_implies_hash_eq T H hH a b (class_check_sound T _ _ a hc ha) h
 
 /-- Non-vacuity of the typed statement on the regenerated table: a well-typed `Parameter`. -/
 example : HasKind eqHashTable (.cls "Parameter")
@@ -123,13 +147,13 @@ example : HasKind eqHashTable (.cls "Parameter")
 /-- Which fields are directly responsible today (none outside the known ones). -/
 theorem direct_causes_known :
     ∀ sp ∈ eqHashTable, ∀ f ∈ directBad sp,
-      (sp.name, f) ∈ [("frozenmapping", "_mapping"), ("ColumnInfo", "_descriptor"), ("CompartmentalSystem", "_g"),
-                      ("Model", "_dataset"), ("Model", "_initial_individual_estimates")] := by
+      (sp.name, f) ∈ [("Model", "_dataset"), ("Model", "_initial_individual_estimates")] := by
   decide +kernel
 
 /-- Non-vacuity: the check accepts most of the table (at least these classes). -/
 example : ["Expr", "Parameter", "Parameters", "Assignment", "Compartment", "Bolus", "Infusion",
-           "NormalDistribution", "JointNormalDistribution", "RandomVariables"].all (classOK eqHashTable) = true := by
+           "NormalDistribution", "JointNormalDistribution", "RandomVariables", "frozenmapping", "ColumnInfo",
+           "DataInfo", "EstimationStep", "ExecutionSteps", "CompartmentalSystem", "Statements"].all (classOK eqHashTable) = true := by
   decide +kernel
 
 /-- Non-vacuity of `eq_implies_hash_eq`: a lawful, non-trivial pair of equal objects. -/
@@ -198,17 +222,17 @@ example : check { name := "add_admid", params := ["model"], body := [.fresh "dat
 
 end Effects
 
-/-- Public functions whose effect program is **not** proved free of writes to arguments.
-    `add_admid`, `add_cmt`: genuine in-place writes to the argument model's DataFrame (known findings).
-    The others are flagged through imprecision of the flow-insensitive abstraction and are covered by
-    the snapshot monitors only: `x = [] if x is None` followed by `x.append` (add_allometry,
-    create_joint_distribution, plot_abs_cwres_vs_ipred, plot_cwres_vs_idv), `df = df.copy()` followed by
-    stores (deidentify_data), `option *= n` on an element of a list argument (add_iiv — this one does
-    lengthen a caller's one-element list in place, a non-model argument), a set obtained from a
-    computed property and updated (remove_covariate_effect), a frame derived inside a helper and
-    then extended (plot_dv_vs_ipred, plot_dv_vs_pred, plot_vpc). -/
+/-- Public functions whose effect program is **not** proved free of writes to arguments: all through
+    imprecision of the flow-insensitive abstraction, covered by the snapshot monitors only:
+    `x = [] if x is None` followed by `x.append` (add_allometry, create_joint_distribution,
+    plot_abs_cwres_vs_ipred, plot_cwres_vs_idv), `df = df.copy()` followed by stores (deidentify_data),
+    `option *= n` on an element of a list argument (add_iiv — this one does lengthen a caller's
+    one-element list in place, a non-model argument), a set obtained from a computed property and
+    updated (remove_covariate_effect), a frame derived inside a helper and then extended
+    (plot_dv_vs_ipred, plot_dv_vs_pred, plot_vpc).  `add_admid` and `add_cmt` were repaired in /repo
+    (c8f61e3) and are no longer exempt. -/
 def notProvedPure : List String :=
-  ["add_admid", "add_cmt", "add_allometry", "add_iiv", "create_joint_distribution", "deidentify_data",
+  ["add_allometry", "add_iiv", "create_joint_distribution", "deidentify_data",
    "plot_abs_cwres_vs_ipred", "plot_cwres_vs_idv", "plot_dv_vs_ipred", "plot_dv_vs_pred",
    "remove_covariate_effect", "plot_vpc"]
 
